@@ -20,6 +20,13 @@
      LSteal v u t  idler of v: try_work_stealing takes thread t from vCPU u (2002-2091);
                  one thread per step — a scan that takes k threads is k consecutive steps
      LTick d     time passes (any amount)
+   vCPU wind-down (2200-2217, 2334-2350): ops `waitall` / `fini` of the main thread of a vCPU = photon::wait_all() /
+   vcpu_fini().  wait_all's loop is one block per evaluation of its test (`wait_check`): ring has > 2 members or the
+   sleep queue or the standby queue is not empty -> thread_usleep(1000) (sleep queue not empty) or thread_yield(), else
+   return.  vcpu_fini's tail (go_offline, state = DONE, join of the idler, which exits, vcpu_destroy) is merged into the
+   block of the last test; from then on the vCPU is `offline`: it executes nothing (`frozen`), no steal scan visits it,
+   its main thread is no valid target any more (`alive`), `migrate k v` is skipped by the harness, and a deferred
+   self-migration that finds its target finalised in between is undefined (`pend_to_offline` -> stuck).
 
    Blocks of the thread API (line numbers: thread/thread.cpp)
      create (1040-1084)   new READY thread at the run-queue tail of the creator's vCPU, nthreads++
